@@ -49,6 +49,9 @@ CHECKS = {
  "C15": dict(level="exploration", enum=True, ref="7/C15", technique="bounded exhaustive run-time contract checking: every 0/1 grid up to 4x4 (4x5/5x4 thorough) against a brute-force decomposability oracle and a partition/abutment checker; every hole-free lattice polygon up to 4x4 through strop_decomposition and create_stog; deductive leaf contracts for Interval / StropRectangle",
    text="Existence and validity of a decomposition are combinatorial statements over grids; they are enumerated completely up to the bound (74 322 grids in quick; about 2.1 million in thorough) plus random 6x6 grids. Only the loop-free integer leaves (Interval.intersection / length, StropRectangle.area) are proved for all integers.",
    note="bounded in grid size; numpy arrays as vertices not exercised (Point lists only); create_stog is the real one (C06)"),
+ "C09": dict(level="proof", enum=True, ref="7/C09", technique="contract-based deductive verification of the constraint system built by the real netlist_to_utils + Model.first_build_model: every Equation is read back as an expression tree, translated into z3 (translator cross-validated against ExpressionTree.evaluate on every run) and 'legal => met' / 'met => legal' are discharged in NRA for ALL configurations of each instance",
+   text="For each instance (soft modules with branches on every side, hard with branch given with float and with int numbers, fixed with branch, singles; fractional coordinates): with all rectangle variables symbolic, every equation of the built model follows from the legality clauses written from the property, and every legality clause (inside die, ratio, area, attachment within extent, order along a side, inter-module non-overlap up to the smoothing tolerance tau, congruence of hard modules, fixed in place) follows from the equations, with slack 0 and the 1e-6 of is_equation_met. The input configuration of each instance is met (bounded leg).",
+   note=BASE + "; instances (netlist constants) are enumerated, not symbolic; the per-iteration step caps ('radius' group) and the time pin are not part of the legality statement; GEKKO is only used to build the model, nothing is solved"),
 }
 
 PENDING = {}
